@@ -267,13 +267,15 @@ Definition parse_inst (i : inst) (t0 : token) : P pnode :=
       end
   | KJumpLinkR =>
       let* reg1 := get_reg in
-      let* nx := get_any in
+      (* fix: the token after the first register is only looked at; it is consumed when it is an operand *)
+      let* nx := peek_any in
       match tok_reg nx with
-      | Some rs1 => let* imm := get_imm in let* rt := get_raw in ret (PJumpLinkR (w i) reg1 rs1 imm rt)
+      | Some rs1 => let* _ := get_any in let* imm := get_imm in let* rt := get_raw in ret (PJumpLinkR (w i) reg1 rs1 imm rt)
       | None =>
           let* oi := lift_res (tok_imm nx) in
           match oi with
           | Some imm =>
+              let* _ := get_any in
               let* pk := peek_any in
               if is_lparen pk then
                 let* _ := get_any in let* rs1 := get_reg in let* _ := expect_rparen in
@@ -281,6 +283,7 @@ Definition parse_inst (i : inst) (t0 : token) : P pnode :=
               else let* rt := get_raw in ret (PJumpLinkR (w i) (w X1) reg1 imm rt)
           | None =>
               if is_lparen nx then
+                let* _ := get_any in
                 let* rs1 := get_reg in let* _ := expect_rparen in
                 let* rt := get_raw in ret (PJumpLinkR (w i) reg1 rs1 (w 0) rt)
               else let* rt := get_raw in ret (PJumpLinkR (w i) (w X1) reg1 (w 0) rt)
